@@ -18,7 +18,7 @@ def c01(tier, seed):
 
 
 def _c01(tier, seed):
-    return combine(fam_list(tier, ['core_q', 'edge_q', 'frac_q', 'split_q', 'split5_q', 'split2_q', 'order_q', 'two_q', 'two_split_q', 'two_fills_q', 'matcher_q', 'lines_q', 'lines4_q', 'lines_splits_q', 'lines_files_q'], ['core_t', 'split_t', 'sim_t', 'matcher_t', 'matcher_sim_t', 'lines_t', 'lines5_t', 'lines_files_t']) + [trace_family(tier, seed)], 'multi_leg_disposals',
+    return combine(fam_list(tier, ['core_q', 'edge_q', 'frac_q', 'split_q', 'split5_q', 'split2_q', 'order_q', 'two_q', 'two_split_q', 'two_fills_q', 'matcher_q', 'lines_q', 'lines4_q', 'lines_splits_q', 'lines_files_q', 'lines_resv_q'], ['core_t', 'split_t', 'sim_t', 'matcher_t', 'matcher_sim_t', 'lines_t', 'lines5_t', 'lines_files_t']) + [trace_family(tier, seed)], 'multi_leg_disposals',
                    'every cell ledger of the family (TLC-enumerated) x base dates; non-trivial = ledgers with a disposal '
                    'identified by two or more legs')
 
@@ -60,7 +60,7 @@ def c09(tier, seed):
 
 
 def _c09(tier, seed):
-    return combine(fam_list(tier, ['two_q', 'two_split_q', 'two_fills_q', 'two_events_q', 'lines_q', 'lines_files_q'], ['two_t', 'lines_t', 'lines_files_t']) + laws(tier, ['project_q'], ['project_t']), ['covered', 'nontrivial'],
+    return combine(fam_list(tier, ['two_q', 'two_split_q', 'two_fills_q', 'two_events_q', 'lines_q', 'lines_files_q', 'lines_resv_q'], ['two_t', 'lines_t', 'lines_files_t']) + laws(tier, ['project_q'], ['project_t']), ['covered', 'nontrivial'],
                    'two-security cell ledgers (TLC checks OthersUntouched on every step); each security\'s legs, costs and '
                    'holding must equal the single-security specification outcome whatever the other security does and '
                    'wherever its lines sit; non-trivial = accepted ledgers')
